@@ -81,6 +81,9 @@ Qed.
 
 Ltac keep := intros; reflexivity.
 
+Lemma pending_drop_child s u w : pending (drop_child s u w) = pending s.
+Proof. unfold drop_child. destruct (lookup w (registry s)); [reflexivity|]. apply pending_upd_actor; keep. Qed.
+
 Lemma pend_actor_push a e : pend_actor (w_userq (a_userq a ++ [e]) a) = pend_actor a + pend_env e.
 Proof. unfold pend_actor. cbn [a_userq a_inflight w_userq]. rewrite map_app, list_sum_app'. cbn [map]. unfold list_sum at 2; cbn [fold_right]. lia. Qed.
 
@@ -352,7 +355,7 @@ Proof.
       apply HT; rewrite deliver_sys_pending; apply pending_upd_actor; keep.
   - (* STerminatedOf *) apply bind_bal.
     + intros s1 o1 p1 E. apply handle_life_bal in E; [|intros n; destruct (Z.eqb who (a_tok a)); discriminate].
-      unfold bal in *. rewrite pending_upd_actor in E by keep. exact E.
+      unfold bal in *. rewrite pending_drop_child in E. exact E.
     + intros s1 s2 o2 p2. destruct (get s1 u) as [a2|]; [|intros H; inversion H; subst; apply bal_refl].
       destruct (a_st a2); try (intros H; inversion H; subst; apply bal_refl).
       * apply try_restarted_bal.
